@@ -515,6 +515,8 @@ static int policy_choice(struct vthread *t, int def)
 	if(t)
 		for(int i = 0; i < nc; i++)
 			self_ok |= cand[i] == t->id;
+	if(G.fair_only && P.policy == 1)
+		return def;
 	switch(P.policy) {
 		case 1: { /* pct with a starvation rule: a thread that only polls drops to the lowest priority */
 			for(int k = 0; k < P.pct_d && k < 8; k++)
@@ -637,6 +639,11 @@ static void fault_points(struct vthread *t)
 
 static void sp_tail(struct vthread *t)
 {
+	if(!G.fair_only && P.horizon > 0 && G.sps >= (uint64_t)P.horizon) {
+		G.fair_only = true; /* liveness is judged under a fair scheduler once the faults have stopped */
+		for(int i = 0; i < G.nvt; i++)
+			G.vt[i].stall_until = 0;
+	}
 	if(G.sps > (uint64_t)P.max_sps)
 		report_hang("budget-exhausted");
 	unsigned J = J_IDLE(G.live);
@@ -705,13 +712,15 @@ void verif_sp(int kind, const volatile void *addr, unsigned size, const char *fi
 	sp_common(t, kind, addr, size, file, line, func);
 }
 
-void sim_yield(void)
+void sim_yield_at(const char *what)
 {
 	struct vthread *t = vt_self;
 	if(!t || !G.active)
 		return;
-	sp_common(t, VSP_LOAD_K, NULL, 0, "sim", 0, "yield");
+	sp_common(t, VSP_LOAD_K, NULL, 0, "sim", 0, what);
 }
+
+void sim_yield(void) { sim_yield_at("yield"); }
 
 /* ------------------------------------------------------------------ edge coverage and basic-block preemption */
 unsigned char *g_pcmap; /* shared with the parent worker */
